@@ -24,9 +24,15 @@ fn mut_paths(thorough: bool) -> Vec<String> {
     v
 }
 
-fn mut_trees(thorough: bool) -> Vec<TreeSpec> {
+fn mut_trees(prop: &str, thorough: bool) -> Vec<TreeSpec> {
     let all = trees(false);
-    let mut v: Vec<TreeSpec> = all.into_iter().enumerate().filter(|(i, _)| thorough || i % 3 == 0).map(|(_, t)| t).collect();
+    // mkdir_all / remove_all are cheap (few operations per path): they get every tree already in the quick tier
+    let every = if thorough || prop == "C12" || prop == "C13" { 1 } else { 3 };
+    let mut v: Vec<TreeSpec> = all.into_iter().enumerate().filter(|(i, _)| i % every == 0).map(|(_, t)| t).collect();
+    // deep and wide subtrees with links to siblings, parents, the decoys outside, loops, fifos and hard links
+    v.push(TreeSpec::default().dir("a").dir("a/a").dir("a/a/a").dir("a/a/a/a").file("a/a/a/a/f").link("a/a/l-sib", "../b").link("a/a/a/l-up", "../../..").link("a/l-out", "/../../../secret")
+        .link("a/a/l-out2", "../../../../outer/secret").link("a/a/a/loop", "loop").fifo("a/a/p").dir("a/b").file("a/b/f").add("a/b/hl", Kind::Hard("a/b/f".into())).dir("a/x").link("a/x/l-dir", "../../b").dir("b").file("b/keep").file("x"));
+    v.push(TreeSpec::default().dir("a").link("a/a", "..").link("a/b", "/").link("a/x", "../b").dir("b").dir("b/a").file("b/a/keep").link("x", "a"));
     // a few deeper / special trees every tier
     v.push(TreeSpec::default().dir("a").dir("a/a").file("a/a/f").link("a/l", "a").link("b", "a/a").file("x"));
     v.push(TreeSpec::default().add("a", Kind::DirMode(0o2755)).dir("a/a").link("b", "/a"));
@@ -39,8 +45,7 @@ pub struct MScope { pub trees: Vec<TreeSpec>, pub paths: Vec<String>, pub thorou
 
 pub fn scope(prop: &str, tier: &str) -> MScope {
     let th = tier == "thorough";
-    let _ = prop;
-    MScope { trees: mut_trees(th), paths: mut_paths(th), thorough: th, chunk: if th { 8 } else { 6 } }
+    MScope { trees: mut_trees(prop, th), paths: mut_paths(th), thorough: th, chunk: if th { 8 } else { 6 } }
 }
 
 pub fn n_items(prop: &str, tier: &str) -> usize { let s = scope(prop, tier); (s.trees.len() + s.chunk - 1) / s.chunk }
